@@ -9,10 +9,11 @@ MANIFEST = dict(
          "(most specific value, snapshot at creation, isolation, rejected definitions change nothing, result codes); the model is tied to the code by "
          "running random define/create/scan sequences through the real compiler/rules/scanner API and the compiled Lean model and diffing every op's result.",
     design_ref="DESIGN.md §5 C20",
-    note=core.TB + "Assumes small integer/dyadic values (no int64 wrap, no IEEE rounding); a variable is observed through probe conditions only.")
+    note=core.TB + "Integer values stay below 2^34 in magnitude, so that no probe wraps at 64 bits (some need more than 32 bits); dyadic floats (no IEEE rounding); a variable is observed through probe conditions only.")
 NAMES = ["x", "xy", "y", "yx", "z"]          # prefixes of each other on purpose
 UNKNOWN = ["q", "xyz", "yxx", "zz", "xx"]       # never declared; some extend / are extended by declared names
-VALS = {"i": ["-1", "0", "1", "2", "7", "4"], "b": ["0", "1", "5"], "f": ["-1", "0", "1", "3", "4"],
+VALS = {"i": ["-1", "0", "1", "2", "7", "4", "4294967296", "2147483648", "-2147483649", "12884901889"],  # the last four do not fit in 32 bits (and no probe wraps at 64)
+        "b": ["0", "1", "5"], "f": ["-1", "0", "1", "3", "4"],
         "s": ["-", "61", "6162", "6261", "616263", "42", "63"]}
 
 
